@@ -1058,7 +1058,7 @@ Example ex_ps_wf : forallb wf_proto ex_ps = true /\ ex_ps <> [].
 Proof. split; [vm_compute; reflexivity|discriminate]. Qed.
 
 Example ex_ps_roundtrip :
-  unmarshal (marshal ex_ps) = Ok (new ex_ps) /\ new ex_ps <> ex_ps /\ (length (marshal ex_ps) = 488)%nat.
+  unmarshal (marshal ex_ps) = Ok (new ex_ps) /\ new ex_ps <> ex_ps /\ (length (marshal ex_ps) = 456)%nat.
 Proof. vm_compute. repeat split; try reflexivity. discriminate. Qed.
 
 Example ex_canonical_hyp :
@@ -1070,5 +1070,5 @@ Example ex_get_dup :   (* two protocols of one ID: Get returns the first constru
   = Some (PGraphsync ex_cid true false).
 Proof. vm_compute. reflexivity. Qed.
 
-Example ex_alloc : unmarshal_alloc (marshal ex_ps) = 1288.
+Example ex_alloc : unmarshal_alloc (marshal ex_ps) = 932.
 Proof. vm_compute. reflexivity. Qed.
